@@ -1,9 +1,10 @@
-use svgdx::Result;
-
 use svgdx::cli::{get_config, run};
 
-fn main() -> Result<()> {
-    run(get_config()?)?;
-
-    Ok(())
+fn main() {
+    // Display rather than the Debug rendering `fn main() -> Result` would use: a MultiError
+    // lists its entries in document order there, not in the hash order of its map
+    if let Err(e) = get_config().and_then(run) {
+        eprintln!("Error: {e}");
+        std::process::exit(1);
+    }
 }
